@@ -1145,7 +1145,7 @@ def gen_all(ctx, n):
         if 0.2 <= u < 0.4:
             # exact zeros: one ingredient exactly 0, the others non-zero
             apply_zeros(rng, case, rng.choice(ZEROS_CX if kind == 'cx' else ZEROS_BES))
-        elif 0.4 <= u < 0.55:
+        elif 0.4 <= u < 0.65:
             # re-evaluation stream: evaluate, change the scene through public API, evaluate again
             case['reeval'] = dict(seed=rng.randrange(1 << 30), attached=rng.random() < 0.5, n=rng.choice([1, 1, 2, 3]))
         cases.append(case)
@@ -1281,7 +1281,10 @@ def run(ctx, extra_cases=()):
                 'stationary plasma, neutral with non-null rate, identical coefficients, sparse plasmas) + exact-zero streams (one coefficient '
                 '/ relative population / density / temperature / B exactly 0 with the others non-zero, and all-but-one-zero) + '
                 're-evaluation stream (evaluate, change plasma / beam / provider through public API, model attached via beam.models or '
-                'stand-alone, evaluate again against the current state); a case is distinct by '
+                'stand-alone, evaluate again against the current state; about half of the steps are assignments / calls that must raise '
+                '- non-Species in a composition list, add(None), negative energy/power/temperature, None element/line/plasma/beam/'
+                'attenuator, wrong-typed atomic data, non-model in a models list - after which composition and emission must be '
+                'exactly what they were); a case is distinct by '
                 '(model, edge stream, #species, #neutrals, #metastables, beam energy bits); non-trivial = a line was emitted or an '
                 'edge stream was exercised')
     ctx.trusted += ['C sqrt is a parameter of the model under SqrtSpec (non-negative, squares back) - met by Real.sqrt (example in Props/C05.lean); the driver uses Float.sqrt',
